@@ -156,6 +156,8 @@ pub fn schema(profile: Profile) -> Schema {
   serde_json::from_value(v).expect("schema json")
 }
 
+/// versions from here on always produce token-less documents (used by E4)
+pub const BLANK_VERSIONS: u64 = 5_000_000;
 const WORDS: [&str; 6] = ["alpha", "beta", "gamma", "delta", "omega", "sigma"];
 const TAGS: [&str; 4] = ["red", "green", "blue", "grey"];
 
@@ -164,9 +166,18 @@ pub fn make_doc(profile: Profile, id: &str, ver: u64) -> Document {
   let mut nextr = || crate::rng::splitmix(&mut x);
   let mut fields: BTreeMap<String, Value> = BTreeMap::new();
   fields.insert("_id".into(), json!(id));
+  // one document in eight has no indexable token at all (empty or
+  // punctuation-only text, no tag): commits made only of such documents produce
+  // zero-length postings files
+  let blank = ver % 8 == 5 || ver >= BLANK_VERSIONS;
   let nwords = 1 + (nextr() % 3) as usize;
   let mut words: Vec<String> = (0..nwords).map(|_| WORDS[(nextr() % 6) as usize].to_string()).collect();
   words.push(format!("v{}", ver));
+  if blank {
+    fields.insert("body".into(), json!(["", "?!", "... --"][(ver % 3) as usize]));
+    fields.insert("n".into(), json!(ver as i64));
+    return Document { fields };
+  }
   fields.insert("body".into(), json!(words.join(" ")));
   let tag = match nextr() % 5 {
     0 => json!([]),
